@@ -121,8 +121,8 @@ def make(rng, cls, n, dtype, noise):
             a = rng.integers(-9, 10, shape)
         return a * (1 if dtype == "int" else 10 ** rng.uniform(-3, 3))
     shape = (2, n) if cls == "opt2" else (n,)
-    s = arr(shape)
-    nz = arr(shape) if noise else None
+    s = core.degenerate_rows(rng, arr(shape), every=7)
+    nz = core.degenerate_rows(rng, arr(shape), every=3) if noise else None      # noise in one polarisation only, identical noise rows, all-zero noise arrays
     if cls == "el":
         return T.electrical_signal(s, nz)
     return T.optical_signal(s, nz)
